@@ -143,7 +143,7 @@ CHECKS['C04'] = {
   'text': 'Decides the sequence contract structurally: the index arithmetic of get/set/pop_at/push_at is evaluated by the analyser over '
           'small lengths and a wide key range (negative-from-end once, everything else refused before access); memmove extents equal the '
           'tail (polynomial identity) and are ordered correctly around the count update; growth precedes slot writes and realloc sizes '
-          'cover items plus sentinel; List link/unlink cases are mirror images; sort only exchanges; rem stops at the first hit.',
+          'cover items plus sentinel; List link/unlink cases are mirror images and the element count changes by exactly the nodes linked minus unlinked on every path (interprocedural); sort only exchanges; rem stops at the first hit.',
   'note': ASSUME + '; push_at insertion positions are taken per container as implemented today (they differ between Array and List/Tuple)',
   'technique': 'partial evaluation of index arithmetic over the CFG, polynomial extent comparison, mirror-closure of per-path store sets',
 }
@@ -153,7 +153,7 @@ CHECKS['C11'] = {
           'only through direction-matching cursor functions, zip-shortest, foreach expansion, len vs emptiness tests, List link pairing. '
           'The Slice stop bound is a recorded known finding. Range/Slice arithmetic is value-level and not decided.',
   'note': ASSUME,
-  'technique': 'guard evaluation under dominance, partial evaluation of cursor functions, mirror-image sibling comparison, who-may-call rules',
+  'technique': 'guard evaluation under dominance, partial evaluation of cursor and range arithmetic with exact C integer conversions, position abstraction of iterables, mirror-image sibling comparison, who-may-call rules, interprocedural effect pairing',
 }
 
 CHECKS['C03'] = {
@@ -163,14 +163,14 @@ CHECKS['C03'] = {
           'raise; count/alloc/free pairing; node layout and predecessor copy extents; colour transfers read before recolouring. The '
           'red-black colour/black-height invariants (height bound) are NOT decided.',
   'note': ASSUME,
-  'technique': 'sign-guided CFG walk, mirror-image comparison, must-pass pairing, polynomial layout comparison, data-dependence ordering',
+  'technique': 'shape analysis (abstract interpretation with summary nodes and focus; inductive loop-invariant check), sign-guided CFG walk, mirror-image comparison, must-pass pairing, polynomial layout comparison',
 }
 
 CHECKS['C10'] = {
   'text': 'Decides structural necessary conditions of value-hashing and copying: no hash function derives anything from an address; '
           'hash_data reads unsigned bytes with full coverage; container hashes XOR every element (key and value) once over a full '
           'traversal from seed 0; default copy/assign/swap are guarded and cover all size bytes; memswap touches every byte exactly '
-          'once in each operand (loop headers evaluated for sizes 0..40) and exchanges. Does not decide per-value agreement of hash with eq.',
+          'once in each operand (loop headers evaluated for sizes 0..40) and exchanges; the List count (read by hash, copy, assign) tracks the links (followed by eq). Does not decide per-value agreement of hash with eq.',
   'note': ASSUME,
   'technique': 'effect rule on pointer-to-integer conversions with positive example, sibling form extraction, loop-header partial evaluation',
 }
